@@ -102,6 +102,16 @@ fn esc(s: &str) -> String {
 
 // ---------------- (a) denotation
 fn check_denotation(ctx: &Ctx, atoms: &[usize], choice: &[usize], quote: char, prefix: bool, posix: bool, header: bool, inputs: &[String], st: &mut Stats) {
+    let what = format!("atoms {:?} renderings {:?} quote {:?} prefix {} posix {} header {}", atoms, choice, quote, prefix, posix, header);
+    ctx.guard(
+        &format!("building / running a lexer ({})", what),
+        || json!({"spec": what, "part": "denotation"}),
+        (),
+        || check_denotation_inner(ctx, atoms, choice, quote, prefix, posix, header, inputs, st),
+    )
+}
+
+fn check_denotation_inner(ctx: &Ctx, atoms: &[usize], choice: &[usize], quote: char, prefix: bool, posix: bool, header: bool, inputs: &[String], st: &mut Stats) {
     let mut re_text = String::new();
     let mut canon = String::new();
     for (k, a) in atoms.iter().enumerate() {
@@ -225,6 +235,15 @@ fn render(spec: &LSpec, header: Option<&str>, quote: char, trailing_blank: bool,
 }
 
 fn check_structure(ctx: &Ctx, spec: &LSpec, r: &Rendered, flags: Option<LexFlags>, st: &mut Stats) {
+    ctx.guard(
+        &format!("building / querying the lexer of\n{}", r.text),
+        || json!({"spec": r.text, "part": "structure"}),
+        (),
+        || check_structure_inner(ctx, spec, r, flags, st),
+    )
+}
+
+fn check_structure_inner(ctx: &Ctx, spec: &LSpec, r: &Rendered, flags: Option<LexFlags>, st: &mut Stats) {
     st.specs += 1;
     let case = || json!({"spec": r.text, "part": "structure"});
     let built = match &flags {
